@@ -301,7 +301,16 @@ def judge(p, ctx, fsys, fm, A, b_top, frame, consistent):
 
 
 def check_case(p, ctx):
-    out = solve_once(p, ctx)
+    from ..core import ForsysCrash
+    try:
+        out = solve_once(p, ctx)
+    except ForsysCrash as cr:
+        if cr.kind == "DifferentTissueException":
+            # documented rejection of a frame pair whose bounding box changes too much (tracking is C12's subject; the
+            # second frame here only exists to give the system a velocity right-hand side)
+            ctx.skip("frame pair declared too different by the tracking (documented rejection)")
+            return
+        raise
     if out is None:
         ctx.count("trivial:no-rows")
         return
